@@ -1,6 +1,1050 @@
-//! C41 — not implemented yet.
+//! C41 — Chunked metastore responses decode exactly.
+//!
+//! Code under test: `metastore::gravitino::dechunk` (through the hook
+//! `verif_dechunk`) and, end to end, `GravitinoSource::list_filesets` against a
+//! scripted loopback HTTP server that answers with `Transfer-Encoding: chunked`.
+//!
+//! Checks
+//!  * `roundtrip`  — generated body × generated chunking (1-byte chunks, chunk
+//!    extensions, upper/lower hex, leading zeros, trailers, chunk boundaries
+//!    inside a CRLF of the body).  Oracle by construction: the decoder returns
+//!    exactly the body.
+//!  * `malformed`  — a valid encoding with one structural fault planted
+//!    (truncation, missing CRLF after chunk data, declared size too big / too
+//!    small, missing last-chunk, missing CRLF after the size, non-hex size,
+//!    huge size).  Oracle: an independent strict RFC 7230 §4.1 reader
+//!    (`reference`) classifies the bytes as Valid(body) / Malformed / Lenient
+//!    (places where the grammar is violated in a way the property does not
+//!    speak about: whitespace or '+' around the size, missing final CRLF after
+//!    the last-chunk, odd extension syntax).  Valid ⇒ Some(body), Malformed ⇒
+//!    None, Lenient ⇒ only "does not panic".
+//!  * `arbitrary`  — token soup and raw bytes, hex sizes up to and beyond
+//!    usize::MAX: never panics; same reference differential.
+//!  * `end_to_end` — `list_filesets` over a real socket with a chunked JSON
+//!    answer: returns exactly the sorted names.
 use super::Property;
+use crate::runner::*;
+use proptest::prelude::*;
+use query_engine::metastore::gravitino::verif_dechunk;
+use query_engine::metastore::GravitinoSource;
+use serde::{Deserialize, Serialize};
+
+// ---------------------------------------------------------------------------
+// known findings (open on the unchanged tree; see known_findings.json)
+// ---------------------------------------------------------------------------
+const KF_EXT: &str = "c41-chunk-extension-rejected";
+const KF_OVERFLOW: &str = "c41-size-plus-2-overflow-panic";
+const KF_TERMINATOR: &str = "c41-chunk-data-crlf-unchecked";
+
+// ---------------------------------------------------------------------------
+// case model
+// ---------------------------------------------------------------------------
+#[derive(Clone, Debug, Serialize, Deserialize, PartialEq)]
+pub enum Data {
+    Bytes(Vec<u8>),
+    /// `pat` repeated `n` times (compact form of a large chunk)
+    Repeat { pat: Vec<u8>, n: usize },
+}
+impl Data {
+    fn bytes(&self) -> Vec<u8> {
+        match self {
+            Data::Bytes(b) => b.clone(),
+            Data::Repeat { pat, n } => {
+                let mut v = Vec::with_capacity(pat.len() * n);
+                for _ in 0..*n {
+                    v.extend_from_slice(pat);
+                }
+                v
+            }
+        }
+    }
+}
+
+#[derive(Clone, Debug, Serialize, Deserialize)]
+pub struct Chunk {
+    /// non-empty chunk data
+    pub data: Data,
+    /// chunk extension text including the leading ';' ("" = none)
+    pub ext: String,
+    pub upper: bool,
+    pub lead_zeros: u8,
+}
+
+#[derive(Clone, Debug, Serialize, Deserialize)]
+pub struct Encoding {
+    pub chunks: Vec<Chunk>,
+    /// extension on the last-chunk line ("" = none)
+    pub last_ext: String,
+    /// number of '0' digits of the last-chunk size (>=1)
+    pub last_zeros: u8,
+    /// trailer field lines (without CRLF)
+    pub trailers: Vec<String>,
+}
+
+fn size_line(len: usize, upper: bool, lead_zeros: u8, ext: &str) -> Vec<u8> {
+    let hex = if upper { format!("{:X}", len) } else { format!("{:x}", len) };
+    let mut s = "0".repeat(lead_zeros as usize);
+    s.push_str(&hex);
+    s.push_str(ext);
+    s.push_str("\r\n");
+    s.into_bytes()
+}
+
+struct Rendered {
+    bytes: Vec<u8>,
+    body: Vec<u8>,
+    /// offset of the first byte of each chunk's size line
+    line_start: Vec<usize>,
+    /// offset of the first data byte of each chunk
+    data_start: Vec<usize>,
+    /// offset just after the CRLF that ends the last-chunk line
+    last_line_end: usize,
+    /// offset of the start of the last-chunk line
+    last_line_start: usize,
+}
+
+fn render(e: &Encoding) -> Rendered {
+    let mut bytes = vec![];
+    let mut body = vec![];
+    let mut line_start = vec![];
+    let mut data_start = vec![];
+    for c in &e.chunks {
+        let d = c.data.bytes();
+        assert!(!d.is_empty(), "harness: empty chunk data");
+        line_start.push(bytes.len());
+        bytes.extend(size_line(d.len(), c.upper, c.lead_zeros, &c.ext));
+        data_start.push(bytes.len());
+        bytes.extend_from_slice(&d);
+        bytes.extend_from_slice(b"\r\n");
+        body.extend_from_slice(&d);
+    }
+    let last_line_start = bytes.len();
+    bytes.extend("0".repeat(e.last_zeros.max(1) as usize).as_bytes());
+    bytes.extend(e.last_ext.as_bytes());
+    bytes.extend_from_slice(b"\r\n");
+    let last_line_end = bytes.len();
+    for t in &e.trailers {
+        bytes.extend(t.as_bytes());
+        bytes.extend_from_slice(b"\r\n");
+    }
+    bytes.extend_from_slice(b"\r\n");
+    Rendered { bytes, body, line_start, data_start, last_line_end, last_line_start }
+}
+
+/// the same encoding with every extension removed (used only to make the
+/// signature of the extension finding precise)
+fn strip_ext(e: &Encoding) -> Encoding {
+    let mut e = e.clone();
+    for c in &mut e.chunks {
+        c.ext.clear();
+    }
+    e.last_ext.clear();
+    e
+}
+
+// ---------------------------------------------------------------------------
+// independent strict reference reader (RFC 7230 §4.1)
+// ---------------------------------------------------------------------------
+#[derive(Debug, Clone, PartialEq)]
+enum Why {
+    NoCrlfAfterSize,
+    NonHexSize,
+    /// declared size does not fit in the bytes that follow (size as u128)
+    ShortChunk { declared: u128 },
+    /// size bytes present, but fewer than 2 bytes follow
+    TruncatedTerminator,
+    /// size+2 bytes present but the two bytes after the data are not CRLF
+    BadTerminator,
+}
+#[derive(Debug, Clone, PartialEq)]
+enum Ref {
+    Valid { body: Vec<u8>, saw_ext: bool, chunks: usize },
+    Malformed { why: Why, chunks_before: usize, saw_ext: bool },
+    /// outside what the property pins down
+    Lenient(&'static str),
+}
+
+fn is_tchar(b: u8) -> bool {
+    b.is_ascii_alphanumeric() || b"!#$%&'*+-.^_`|~".contains(&b)
+}
+
+/// strict chunk-ext: *( ";" token [ "=" ( token / quoted-string ) ] )
+fn ext_ok(mut e: &[u8]) -> bool {
+    while !e.is_empty() {
+        if e[0] != b';' {
+            return false;
+        }
+        e = &e[1..];
+        let n = e.iter().take_while(|b| is_tchar(**b)).count();
+        if n == 0 {
+            return false;
+        }
+        e = &e[n..];
+        if e.first() == Some(&b'=') {
+            e = &e[1..];
+            if e.first() == Some(&b'"') {
+                // quoted-string without escapes: printable ASCII except '"' and '\\'
+                let mut i = 1;
+                loop {
+                    match e.get(i) {
+                        None => return false,
+                        Some(b'"') => break,
+                        Some(b'\\') => return false,
+                        Some(c) if (0x20..0x7f).contains(c) || *c == b'\t' => i += 1,
+                        Some(_) => return false,
+                    }
+                }
+                e = &e[i + 1..];
+            } else {
+                let n = e.iter().take_while(|b| is_tchar(**b)).count();
+                if n == 0 {
+                    return false;
+                }
+                e = &e[n..];
+            }
+        }
+    }
+    true
+}
+
+fn find_crlf(b: &[u8]) -> Option<usize> {
+    b.windows(2).position(|w| w == b"\r\n")
+}
+
+fn reference(mut b: &[u8]) -> Ref {
+    let mut body = vec![];
+    let mut chunks = 0usize;
+    let mut saw_ext = false;
+    loop {
+        let Some(le) = find_crlf(b) else {
+            return Ref::Malformed { why: Why::NoCrlfAfterSize, chunks_before: chunks, saw_ext };
+        };
+        let line = &b[..le];
+        let (digits, ext) = match line.iter().position(|c| *c == b';') {
+            Some(p) => (&line[..p], &line[p..]),
+            None => (line, &line[le..]),
+        };
+        if digits.is_empty() || !digits.iter().all(|c| c.is_ascii_hexdigit()) {
+            // whitespace / sign around otherwise-hex digits: the grammar says
+            // malformed, the property does not insist
+            let lenient = std::str::from_utf8(digits).map_or(false, |s| {
+                let t: String = s.chars().filter(|c| !c.is_whitespace()).collect();
+                let t = t.strip_prefix('+').unwrap_or(&t);
+                !t.is_empty() && t.bytes().all(|c| c.is_ascii_hexdigit())
+            });
+            if lenient {
+                return Ref::Lenient("whitespace or sign around the chunk size");
+            }
+            return Ref::Malformed { why: Why::NonHexSize, chunks_before: chunks, saw_ext };
+        }
+        if !ext.is_empty() {
+            if !ext_ok(ext) {
+                return Ref::Lenient("chunk extension outside the strict grammar");
+            }
+            saw_ext = true;
+        }
+        // value as u128 (saturating for absurd digit counts)
+        let sig: Vec<u8> = digits.iter().copied().skip_while(|c| *c == b'0').collect();
+        let size: u128 = if sig.len() > 32 {
+            u128::MAX
+        } else {
+            u128::from_str_radix(std::str::from_utf8(&sig).unwrap_or("0"), 16).unwrap_or(0)
+        };
+        let size = if sig.is_empty() { 0 } else { size };
+        b = &b[le + 2..];
+        if size == 0 {
+            // trailer-part CRLF
+            let mut t = b;
+            loop {
+                match find_crlf(t) {
+                    None => return Ref::Lenient("final CRLF after the last-chunk missing"),
+                    Some(0) => {
+                        return if t.len() == 2 {
+                            Ref::Valid { body, saw_ext, chunks }
+                        } else {
+                            Ref::Lenient("bytes after the end of the chunked body")
+                        };
+                    }
+                    Some(n) => {
+                        let l = &t[..n];
+                        // field-name ":" value, printable
+                        let ok = l.iter().position(|c| *c == b':').map_or(false, |p| {
+                            p > 0
+                                && l[..p].iter().all(|c| is_tchar(*c))
+                                && l[p + 1..].iter().all(|c| (0x20..0x7f).contains(c) || *c == b'\t')
+                        });
+                        if !ok {
+                            return Ref::Lenient("trailer outside the strict grammar");
+                        }
+                        t = &t[n + 2..];
+                    }
+                }
+            }
+        }
+        if size > b.len() as u128 {
+            return Ref::Malformed { why: Why::ShortChunk { declared: size }, chunks_before: chunks, saw_ext };
+        }
+        let n = size as usize;
+        if b.len() < n + 2 {
+            return Ref::Malformed { why: Why::TruncatedTerminator, chunks_before: chunks, saw_ext };
+        }
+        if &b[n..n + 2] != b"\r\n" {
+            return Ref::Malformed { why: Why::BadTerminator, chunks_before: chunks, saw_ext };
+        }
+        body.extend_from_slice(&b[..n]);
+        chunks += 1;
+        b = &b[n + 2..];
+    }
+}
+
+/// canonical re-encoding of a byte string the reference found Valid, with all
+/// extensions and trailers dropped (to make the extension signature precise)
+fn canonical_without_ext(input: &[u8]) -> Option<Vec<u8>> {
+    let mut b = input;
+    let mut out = vec![];
+    loop {
+        let le = find_crlf(b)?;
+        let line = &b[..le];
+        let digits = match line.iter().position(|c| *c == b';') {
+            Some(p) => &line[..p],
+            None => line,
+        };
+        let size = usize::from_str_radix(std::str::from_utf8(digits).ok()?, 16).ok()?;
+        b = &b[le + 2..];
+        out.extend(format!("{:x}\r\n", size).as_bytes());
+        if size == 0 {
+            out.extend_from_slice(b"\r\n");
+            return Some(out);
+        }
+        out.extend_from_slice(b.get(..size + 2)?);
+        b = &b[size + 2..];
+    }
+}
+
+/// Signature of the overflow finding: walking the chunks the way a tolerant
+/// decoder does (size = trimmed hex text before any ';', skip size+2 bytes),
+/// the walk reaches a size line whose value s fits usize but s+2 does not.
+fn walk_reaches_overflowing_size(input: &[u8]) -> bool {
+    let mut b = input;
+    loop {
+        let Some(le) = find_crlf(b) else { return false };
+        let line = &b[..le];
+        let digits = match line.iter().position(|c| *c == b';') {
+            Some(p) => &line[..p],
+            None => line,
+        };
+        let Ok(t) = std::str::from_utf8(digits) else { return false };
+        let t = t.trim();
+        let t = t.strip_prefix('+').unwrap_or(t);
+        if t.is_empty() || !t.bytes().all(|c| c.is_ascii_hexdigit()) {
+            return false;
+        }
+        let sig = t.trim_start_matches('0');
+        if sig.len() > 16 {
+            return false; // does not fit usize: a parse error, not an overflow
+        }
+        let size = u128::from_str_radix(if sig.is_empty() { "0" } else { sig }, 16).unwrap_or(0);
+        if size > usize::MAX as u128 {
+            return false;
+        }
+        b = &b[le + 2..];
+        if size == 0 {
+            return false;
+        }
+        let Some(end) = (size as usize).checked_add(2) else { return true };
+        if b.len() < end {
+            return false;
+        }
+        b = &b[end..];
+    }
+}
+
+fn call(input: &[u8]) -> Result<Option<Vec<u8>>, String> {
+    let r = std::panic::catch_unwind(|| verif_dechunk(input));
+    r.map_err(|e| {
+        if let Some(s) = e.downcast_ref::<&str>() {
+            s.to_string()
+        } else if let Some(s) = e.downcast_ref::<String>() {
+            s.clone()
+        } else {
+            "panic".into()
+        }
+    })
+}
+
+fn show(b: &[u8]) -> String {
+    let cut = b.len().min(160);
+    let mut s = String::new();
+    for c in &b[..cut] {
+        s.push_str(&std::ascii::escape_default(*c).to_string());
+    }
+    if cut < b.len() {
+        s.push_str(&format!("…(+{} bytes)", b.len() - cut));
+    }
+    s
+}
+
+/// Compare the engine's answer on `input` with the reference's classification.
+fn judge(input: &[u8], obs: &mut Obs) -> Verdict {
+    let r = reference(input);
+    let got = call(input);
+    match (&r, &got) {
+        (_, Err(p)) if walk_reaches_overflowing_size(input) => {
+            obs.label("known:overflow");
+            Verdict::Known {
+                id: KF_OVERFLOW.into(),
+                msg: format!("dechunk({}) panicked: {} (a declared chunk size of usize::MAX or usize::MAX-1; expected None)", show(input), p),
+            }
+        }
+        (_, Err(p)) => Verdict::Fail(format!("dechunk({}) panicked: {}", show(input), p)),
+        (Ref::Lenient(why), Ok(_)) => {
+            obs.label(format!("lenient:{}", why));
+            Verdict::Pass
+        }
+        (Ref::Valid { body, saw_ext, .. }, Ok(g)) => {
+            if g.as_deref() == Some(&body[..]) {
+                return Verdict::Pass;
+            }
+            if g.is_none() && *saw_ext {
+                if let Some(c) = canonical_without_ext(input) {
+                    if call(&c) == Ok(Some(body.clone())) {
+                        obs.label("known:ext");
+                        return Verdict::Known {
+                            id: KF_EXT.into(),
+                            msg: format!(
+                                "dechunk({}) = None; a valid chunked body with chunk extensions must decode to its {}-byte body (the same chunks without extensions decode)",
+                                show(input),
+                                body.len()
+                            ),
+                        };
+                    }
+                }
+            }
+            Verdict::Fail(format!(
+                "dechunk({}) = {:?}, expected Some({})",
+                show(input),
+                g.as_ref().map(|g| show(g)),
+                show(body)
+            ))
+        }
+        (Ref::Malformed { why, chunks_before, .. }, Ok(g)) => match g {
+            None => Verdict::Pass,
+            Some(g) if *why == Why::BadTerminator => {
+                obs.label("known:terminator");
+                Verdict::Known {
+                    id: KF_TERMINATOR.into(),
+                    msg: format!(
+                        "dechunk({}) = Some({}); chunk #{} is not followed by CRLF — malformed framing must give None",
+                        show(input),
+                        show(g),
+                        chunks_before
+                    ),
+                }
+            }
+            Some(g) => Verdict::Fail(format!(
+                "dechunk({}) = Some({}), but the framing is malformed ({:?} after {} good chunks): expected None",
+                show(input),
+                show(g),
+                why,
+                chunks_before
+            )),
+        },
+    }
+}
+
+// ---------------------------------------------------------------------------
+// generators
+// ---------------------------------------------------------------------------
+/// bytes biased towards what matters for framing
+fn framing_byte() -> impl Strategy<Value = u8> {
+    prop_oneof![
+        4 => Just(b'\r'),
+        4 => Just(b'\n'),
+        2 => Just(b'0'),
+        1 => Just(b';'),
+        2 => prop::sample::select(b"123456789abcdefABCDEF".to_vec()),
+        1 => Just(b' '),
+        4 => any::<u8>(),
+    ]
+}
+
+fn data(tier: Tier) -> impl Strategy<Value = Data> {
+    let big = tier.pick(4096usize, 65536usize);
+    prop_oneof![
+        10 => prop::collection::vec(framing_byte(), 1..6).prop_map(Data::Bytes),
+        4 => prop::collection::vec(framing_byte(), 1..40).prop_map(Data::Bytes),
+        2 => prop::collection::vec(any::<u8>(), 1..300).prop_map(Data::Bytes),
+        // sizes around hex digit-count boundaries and large chunks
+        1 => (prop::collection::vec(framing_byte(), 1..4), prop::sample::select(vec![15usize, 16, 17, 255, 256, 257, 4095, 4096]))
+            .prop_map(|(pat, n)| Data::Repeat { n: (n / pat.len()).max(1), pat }),
+        1 => (prop::collection::vec(framing_byte(), 1..8), 1usize..big).prop_map(|(pat, n)| Data::Repeat { n: (n / pat.len()).max(1), pat }),
+    ]
+}
+
+fn token() -> impl Strategy<Value = String> {
+    "[a-zA-Z0-9!#$%&'*+.^_`|~-]{1,6}"
+}
+
+fn one_ext() -> impl Strategy<Value = String> {
+    prop_oneof![
+        3 => (token(), token()).prop_map(|(n, v)| format!(";{}={}", n, v)),
+        2 => token().prop_map(|n| format!(";{}", n)),
+        1 => (token(), "[ -!#-\\[\\]-~]{0,8}").prop_map(|(n, v)| format!(";{}=\"{}\"", n, v)),
+        1 => (token(), token(), token()).prop_map(|(a, b, c)| format!(";{}={};{}", a, b, c)),
+    ]
+}
+
+/// `with_ext`: whether chunk extensions may appear at all in this encoding
+fn encoding(tier: Tier, with_ext: bool) -> impl Strategy<Value = Encoding> {
+    let ext = move || {
+        if with_ext {
+            prop_oneof![2 => Just(String::new()), 3 => one_ext()].boxed()
+        } else {
+            Just(String::new()).boxed()
+        }
+    };
+    let chunk = (data(tier), ext(), any::<bool>(), prop_oneof![6 => Just(0u8), 1 => 1u8..4])
+        .prop_map(|(data, ext, upper, lead_zeros)| Chunk { data, ext, upper, lead_zeros })
+        .boxed();
+    (
+        prop_oneof![1 => prop::collection::vec(chunk.clone(), 0..2), 8 => prop::collection::vec(chunk, 2..9)],
+        // glue[i]: make chunk i end with CR and chunk i+1 start with LF
+        prop::collection::vec(prop::bool::weighted(0.35), 9),
+        ext(),
+        prop_oneof![5 => Just(1u8), 1 => 2u8..5],
+        prop_oneof![
+            3 => Just(vec![]),
+            1 => prop::collection::vec((token(), "[ -~]{0,12}").prop_map(|(n, v)| format!("{}: {}", n, v)), 1..3)
+        ],
+    )
+        .prop_map(|(mut chunks, glue, last_ext, last_zeros, trailers)| {
+            for i in 0..chunks.len().saturating_sub(1) {
+                if glue[i] {
+                    let mut a = chunks[i].data.bytes();
+                    a.push(b'\r');
+                    chunks[i].data = Data::Bytes(a);
+                    let mut b = chunks[i + 1].data.bytes();
+                    b.insert(0, b'\n');
+                    chunks[i + 1].data = Data::Bytes(b);
+                }
+            }
+            Encoding { chunks, last_ext, last_zeros, trailers }
+        })
+}
+
+fn split_crlf_boundary(e: &Encoding) -> bool {
+    e.chunks.windows(2).any(|w| {
+        let a = w[0].data.bytes();
+        let b = w[1].data.bytes();
+        a.last() == Some(&b'\r') && b.first() == Some(&b'\n')
+    })
+}
+fn has_ext(e: &Encoding) -> bool {
+    !e.last_ext.is_empty() || e.chunks.iter().any(|c| !c.ext.is_empty())
+}
+
+// ---------------------------------------------------------------------------
+// check 1: round trip
+// ---------------------------------------------------------------------------
+pub struct RoundTrip;
+impl Check for RoundTrip {
+    type Case = Encoding;
+    fn name(&self) -> &'static str {
+        "roundtrip"
+    }
+    fn rule(&self) -> &'static str {
+        ">=2 chunks and (a chunk extension, or a chunk boundary that falls inside a CRLF of the body)"
+    }
+    fn cases(&self, tier: Tier) -> u32 {
+        tier.pick(6000, 600_000)
+    }
+    fn strategy(&self, tier: Tier) -> BoxedStrategy<Encoding> {
+        // extensions are an open finding: keep most of the search behind it
+        prop_oneof![5 => encoding(tier, false), 1 => encoding(tier, true)].boxed()
+    }
+    fn test(&self, e: &Encoding, obs: &mut Obs) -> Verdict {
+        let r = render(e);
+        let ext = has_ext(e);
+        let split = split_crlf_boundary(e);
+        if ext {
+            obs.label("ext");
+        }
+        if split {
+            obs.label("boundary-inside-crlf");
+        }
+        if !e.trailers.is_empty() {
+            obs.label("trailers");
+        }
+        if e.chunks.iter().any(|c| c.data.bytes().len() == 1) {
+            obs.label("1-byte-chunk");
+        }
+        if r.body.len() >= 1024 {
+            obs.label("body>=1KiB");
+        }
+        obs.label(format!("chunks:{}", e.chunks.len().min(4)));
+        obs.nontrivial(e.chunks.len() >= 2 && (ext || split));
+        obs.sample(serde_json::json!({"encoded": show(&r.bytes), "body_len": r.body.len(), "chunks": e.chunks.len()}));
+        // harness self-check: the reference reader agrees with construction
+        match reference(&r.bytes) {
+            Ref::Valid { body, .. } if body == r.body => {}
+            other => panic!("harness bug: reference reader says {:?} for a constructed encoding {}", other, show(&r.bytes)),
+        }
+        match call(&r.bytes) {
+            Err(p) => Verdict::Fail(format!("dechunk({}) panicked: {}", show(&r.bytes), p)),
+            Ok(Some(g)) if g == r.body => Verdict::Pass,
+            Ok(None) if ext && call(&render(&strip_ext(e)).bytes) == Ok(Some(r.body.clone())) => {
+                obs.label("known:ext");
+                Verdict::Known {
+                    id: KF_EXT.into(),
+                    msg: format!(
+                        "dechunk({}) = None; expected the {}-byte body (the same chunking without chunk extensions decodes)",
+                        show(&r.bytes),
+                        r.body.len()
+                    ),
+                }
+            }
+            Ok(g) => Verdict::Fail(format!(
+                "dechunk({}) = {:?}, expected Some({})",
+                show(&r.bytes),
+                g.as_ref().map(|g| show(g)),
+                show(&r.body)
+            )),
+        }
+    }
+}
+
+// ---------------------------------------------------------------------------
+// check 2: planted framing faults
+// ---------------------------------------------------------------------------
+#[derive(Clone, Debug, Serialize, Deserialize)]
+pub enum Fault {
+    /// keep only the first `sel`-selected prefix (monotone index into 0..len)
+    Truncate { sel: u32 },
+    /// truncate somewhere inside the last-chunk line / trailers
+    TruncateTail { sel: u32 },
+    /// replace the CRLF after chunk `sel`'s data by these two bytes
+    BadTerminator { sel: u32, with: [u8; 2] },
+    /// drop the CRLF after chunk `sel`'s data altogether
+    DropTerminator { sel: u32 },
+    /// declared size of chunk `sel` is larger by `by`
+    Inflate { sel: u32, by: u16 },
+    /// declared size of chunk `sel` is smaller by `by` (>=1, < len)
+    Deflate { sel: u32, by: u16 },
+    /// remove the last-chunk line and everything after it
+    DropLastChunk,
+    /// the CRLF after chunk `sel`'s size line becomes a bare LF
+    BareLfAfterSize { sel: u32 },
+    /// chunk `sel`'s size line is replaced by this text (non-hex)
+    NonHexSize { sel: u32, text: String },
+    /// chunk `sel`'s size line declares this huge size (hex text)
+    HugeSize { sel: u32, hex: String },
+}
+#[derive(Clone, Debug, Serialize, Deserialize)]
+pub struct FaultCase {
+    pub enc: Encoding,
+    pub fault: Fault,
+}
+
+fn huge_hex() -> impl Strategy<Value = String> {
+    prop_oneof![
+        3 => Just(format!("{:x}", usize::MAX)),
+        3 => Just(format!("{:X}", usize::MAX - 1)),
+        1 => Just(format!("{:x}", usize::MAX - 2)),
+        1 => Just(format!("{:x}", usize::MAX / 2)),
+        1 => Just(format!("{:x}", (usize::MAX / 2) + 1)),
+        1 => Just(format!("{:x}", u32::MAX)),
+        1 => Just(format!("1{:016x}", 0)),
+        1 => Just(format!("{:x}", u128::MAX)),
+        1 => (16usize..80).prop_map(|n| "f".repeat(n)),
+        1 => (1usize..60).prop_map(|n| format!("{}{:x}", "0".repeat(n), usize::MAX)),
+        1 => any::<u64>().prop_map(|v| format!("{:x}", v | (1u64 << 63))),
+    ]
+}
+
+/// monotone index mapping (shrinks well): u32 selector -> 0..len
+fn pick32(sel: u32, len: usize) -> usize {
+    ((sel as u64 * len as u64) >> 32) as usize
+}
+
+fn why_name(w: &Why) -> &'static str {
+    match w {
+        Why::NoCrlfAfterSize => "no-crlf-after-size",
+        Why::NonHexSize => "non-hex-size",
+        Why::ShortChunk { .. } => "short-chunk",
+        Why::TruncatedTerminator => "truncated-terminator",
+        Why::BadTerminator => "bad-terminator",
+    }
+}
+
+fn apply_fault(c: &FaultCase) -> Option<(Vec<u8>, &'static str)> {
+    let r = render(&c.enc);
+    let n = c.enc.chunks.len();
+    let pick = |sel: u32| -> Option<usize> {
+        if n == 0 {
+            None
+        } else {
+            Some(pick32(sel, n))
+        }
+    };
+    let dlen = |i: usize| c.enc.chunks[i].data.bytes().len();
+    let mut b = r.bytes.clone();
+    Some(match &c.fault {
+        Fault::Truncate { sel } => {
+            let t = pick32(*sel, r.last_line_start.max(1));
+            b.truncate(t);
+            (b, "truncate")
+        }
+        Fault::TruncateTail { sel } => {
+            let span = r.bytes.len() - r.last_line_start;
+            let t = r.last_line_start + pick32(*sel, span);
+            b.truncate(t);
+            (b, "truncate-tail")
+        }
+        Fault::BadTerminator { sel, with } => {
+            let i = pick(*sel)?;
+            if with == b"\r\n" {
+                return None;
+            }
+            let p = r.data_start[i] + dlen(i);
+            b[p] = with[0];
+            b[p + 1] = with[1];
+            (b, "bad-terminator")
+        }
+        Fault::DropTerminator { sel } => {
+            let i = pick(*sel)?;
+            let p = r.data_start[i] + dlen(i);
+            b.drain(p..p + 2);
+            (b, "drop-terminator")
+        }
+        Fault::Inflate { sel, by } => {
+            let i = pick(*sel)?;
+            let line = size_line(dlen(i) + (*by as usize).max(1), c.enc.chunks[i].upper, 0, &c.enc.chunks[i].ext);
+            b.splice(r.line_start[i]..r.data_start[i], line);
+            (b, "inflate")
+        }
+        Fault::Deflate { sel, by } => {
+            let i = pick(*sel)?;
+            let d = dlen(i);
+            if d < 2 {
+                return None;
+            }
+            let by = 1 + (*by as usize) % (d - 1);
+            let line = size_line(d - by, c.enc.chunks[i].upper, 0, &c.enc.chunks[i].ext);
+            b.splice(r.line_start[i]..r.data_start[i], line);
+            (b, "deflate")
+        }
+        Fault::DropLastChunk => {
+            b.truncate(r.last_line_start);
+            (b, "drop-last-chunk")
+        }
+        Fault::BareLfAfterSize { sel } => {
+            let i = pick(*sel)?;
+            b.remove(r.data_start[i] - 2);
+            (b, "bare-lf-after-size")
+        }
+        Fault::NonHexSize { sel, text } => {
+            let i = pick(*sel)?;
+            let mut line = text.clone().into_bytes();
+            line.extend_from_slice(b"\r\n");
+            b.splice(r.line_start[i]..r.data_start[i], line);
+            (b, "non-hex-size")
+        }
+        Fault::HugeSize { sel, hex } => {
+            let i = pick(*sel)?;
+            let mut line = hex.clone().into_bytes();
+            line.extend_from_slice(b"\r\n");
+            b.splice(r.line_start[i]..r.data_start[i], line);
+            (b, "huge-size")
+        }
+    })
+}
+
+pub struct Malformed;
+impl Check for Malformed {
+    type Case = FaultCase;
+    fn name(&self) -> &'static str {
+        "malformed"
+    }
+    fn rule(&self) -> &'static str {
+        "the planted fault makes the framing malformed (per the independent strict reader) after at least one well-formed chunk"
+    }
+    fn cases(&self, tier: Tier) -> u32 {
+        tier.pick(8000, 800_000)
+    }
+    fn strategy(&self, tier: Tier) -> BoxedStrategy<FaultCase> {
+        let fault = prop_oneof![
+            6 => any::<u32>().prop_map(|sel| Fault::Truncate { sel }),
+            2 => any::<u32>().prop_map(|sel| Fault::TruncateTail { sel }),
+            // open finding: keep a trickle
+            1 => (any::<u32>(), prop_oneof![Just(*b"XY"), Just(*b"\n\r"), Just(*b"\r\r"), Just(*b"\n\n"), Just(*b"0\r"), any::<[u8; 2]>()])
+                .prop_map(|(sel, with)| Fault::BadTerminator { sel, with }),
+            3 => any::<u32>().prop_map(|sel| Fault::DropTerminator { sel }),
+            4 => (any::<u32>(), prop_oneof![1u16..4, 1u16..40, any::<u16>()]).prop_map(|(sel, by)| Fault::Inflate { sel, by }),
+            3 => (any::<u32>(), any::<u16>()).prop_map(|(sel, by)| Fault::Deflate { sel, by }),
+            2 => Just(Fault::DropLastChunk),
+            2 => any::<u32>().prop_map(|sel| Fault::BareLfAfterSize { sel }),
+            3 => (any::<u32>(), prop_oneof![
+                    Just("".to_string()), Just("g".to_string()), Just("0x5".to_string()), Just("-1".to_string()),
+                    Just("5.0".to_string()), Just("five".to_string()), Just("\u{663}".to_string()), Just("5 5".to_string()),
+                    Just(";a=b".to_string()), "[g-zG-Z_.,:/-]{1,4}"
+                ]).prop_map(|(sel, text)| Fault::NonHexSize { sel, text }),
+            // the two overflowing sizes are an open finding; the rest is not
+            2 => (any::<u32>(), huge_hex()).prop_map(|(sel, hex)| Fault::HugeSize { sel, hex }),
+        ];
+        (encoding(tier, false), fault).prop_map(|(enc, fault)| FaultCase { enc, fault }).boxed()
+    }
+    fn test(&self, c: &FaultCase, obs: &mut Obs) -> Verdict {
+        let Some((bytes, kind)) = apply_fault(c) else {
+            return Verdict::Discard("fault not applicable".into());
+        };
+        obs.label(kind);
+        let r = reference(&bytes);
+        match &r {
+            Ref::Malformed { why, chunks_before, .. } => {
+                obs.label(format!("ref:malformed:{}", why_name(why)));
+                obs.nontrivial(*chunks_before >= 1);
+            }
+            Ref::Valid { .. } => obs.label("ref:valid"),
+            Ref::Lenient(_) => obs.label("ref:lenient"),
+        }
+        // soundness of the planted fault: a strict prefix that ends before the
+        // last-chunk line is never a complete chunked body
+        if let Fault::Truncate { .. } | Fault::DropLastChunk = c.fault {
+            if !matches!(r, Ref::Malformed { .. }) {
+                panic!("harness bug: reference says {:?} for a truncated encoding {}", r, show(&bytes));
+            }
+        }
+        obs.sample(serde_json::json!({"input": show(&bytes), "fault": kind}));
+        judge(&bytes, obs)
+    }
+}
+
+// ---------------------------------------------------------------------------
+// check 3: arbitrary bytes
+// ---------------------------------------------------------------------------
+#[derive(Clone, Debug, Serialize, Deserialize)]
+pub enum Tok {
+    Raw(Vec<u8>),
+    Crlf,
+    Hex(String),
+    /// a size line that matches the `Raw` that follows: "<len>\r\n<bytes>\r\n"
+    Chunk(Vec<u8>),
+    Zero,
+    Ext(String),
+}
+#[derive(Clone, Debug, Serialize, Deserialize)]
+pub struct SoupCase {
+    pub toks: Vec<Tok>,
+}
+fn soup_bytes(c: &SoupCase) -> Vec<u8> {
+    let mut b = vec![];
+    for t in &c.toks {
+        match t {
+            Tok::Raw(r) => b.extend_from_slice(r),
+            Tok::Crlf => b.extend_from_slice(b"\r\n"),
+            Tok::Hex(h) => b.extend_from_slice(h.as_bytes()),
+            Tok::Chunk(d) => {
+                b.extend(format!("{:x}\r\n", d.len()).as_bytes());
+                b.extend_from_slice(d);
+                b.extend_from_slice(b"\r\n");
+            }
+            Tok::Zero => b.extend_from_slice(b"0\r\n"),
+            Tok::Ext(e) => b.extend_from_slice(e.as_bytes()),
+        }
+    }
+    b
+}
+
+pub struct Arbitrary;
+impl Check for Arbitrary {
+    type Case = SoupCase;
+    fn name(&self) -> &'static str {
+        "arbitrary"
+    }
+    fn rule(&self) -> &'static str {
+        "the strict reader gets past the first size line (hex size + CRLF, then data or a later fault) and the input is not simply a valid extension-free encoding (those are the roundtrip check's)"
+    }
+    fn cases(&self, tier: Tier) -> u32 {
+        tier.pick(20_000, 2_000_000)
+    }
+    fn strategy(&self, _tier: Tier) -> BoxedStrategy<SoupCase> {
+        let tok = prop_oneof![
+            3 => prop::collection::vec(framing_byte(), 0..6).prop_map(Tok::Raw),
+            1 => prop::collection::vec(any::<u8>(), 0..20).prop_map(Tok::Raw),
+            4 => Just(Tok::Crlf),
+            3 => prop_oneof![
+                4 => (0usize..20).prop_map(|n| format!("{:x}", n)),
+                1 => any::<u64>().prop_map(|n| format!("{:X}", n)),
+                // sizes at and beyond usize::MAX: mostly the non-overflowing ones (open finding on MAX, MAX-1)
+                1 => prop_oneof![
+                    1 => Just(format!("{:x}", usize::MAX)),
+                    1 => Just(format!("{:x}", usize::MAX - 1)),
+                    3 => Just(format!("{:x}", usize::MAX - 2)),
+                    3 => Just(format!("1{:016x}", 0u64)),
+                    3 => (17usize..70).prop_map(|n| "F".repeat(n)),
+                    3 => Just(format!("{:x}", isize::MAX as usize)),
+                    3 => Just(format!("{:x}", isize::MAX as usize + 1)),
+                ],
+            ].prop_map(Tok::Hex),
+            5 => prop::collection::vec(framing_byte(), 1..8).prop_map(Tok::Chunk),
+            3 => Just(Tok::Zero),
+            1 => one_ext().prop_map(Tok::Ext),
+        ];
+        prop::collection::vec(tok, 0..10).prop_map(|toks| SoupCase { toks }).boxed()
+    }
+    fn test(&self, c: &SoupCase, obs: &mut Obs) -> Verdict {
+        let b = soup_bytes(c);
+        let r = reference(&b);
+        let past_first = match &r {
+            Ref::Valid { saw_ext, chunks, .. } => {
+                obs.label("ref:valid");
+                *saw_ext || *chunks == 0
+            }
+            Ref::Malformed { why, chunks_before, .. } => {
+                obs.label(format!("ref:malformed:{}", why_name(why)));
+                *chunks_before >= 1 || !matches!(why, Why::NoCrlfAfterSize | Why::NonHexSize)
+            }
+            Ref::Lenient(_) => {
+                obs.label("ref:lenient");
+                false
+            }
+        };
+        obs.nontrivial(past_first);
+        obs.sample(serde_json::json!({"input": show(&b)}));
+        judge(&b, obs)
+    }
+}
+
+// ---------------------------------------------------------------------------
+// check 4: end to end through list_filesets over a socket
+// ---------------------------------------------------------------------------
+#[derive(Clone, Debug, Serialize, Deserialize)]
+pub struct E2eCase {
+    pub names: Vec<String>,
+    /// chunk sizes used to cut the JSON body (cycled); all >= 1
+    pub cuts: Vec<usize>,
+    pub ext: String,
+    pub upper: bool,
+    pub header_case: u8,
+}
+
+pub struct EndToEnd;
+impl Check for EndToEnd {
+    type Case = E2eCase;
+    fn name(&self) -> &'static str {
+        "end_to_end"
+    }
+    fn rule(&self) -> &'static str {
+        "the JSON answer is cut into >=2 chunks"
+    }
+    fn cases(&self, tier: Tier) -> u32 {
+        tier.pick(300, 20_000)
+    }
+    fn workers(&self, _tier: Tier) -> usize {
+        4
+    }
+    fn strategy(&self, _tier: Tier) -> BoxedStrategy<E2eCase> {
+        (
+            prop::collection::vec("[a-z_][a-z0-9_]{0,10}", 0..8),
+            prop::collection::vec(prop_oneof![1usize..4, 1usize..40, 1usize..400], 1..6),
+            prop_oneof![6 => Just(String::new()), 1 => one_ext()],
+            any::<bool>(),
+            0u8..3,
+        )
+            .prop_map(|(names, cuts, ext, upper, header_case)| E2eCase { names, cuts, ext, upper, header_case })
+            .boxed()
+    }
+    fn test(&self, c: &E2eCase, obs: &mut Obs) -> Verdict {
+        use std::io::{Read, Write};
+        let ids: Vec<serde_json::Value> = c
+            .names
+            .iter()
+            .map(|n| serde_json::json!({"namespace": ["m", "c", "s"], "name": n}))
+            .collect();
+        let body = serde_json::json!({"code": 0, "identifiers": ids}).to_string().into_bytes();
+        let mut enc = vec![];
+        let mut off = 0;
+        let mut k = 0;
+        let mut nchunks = 0;
+        while off < body.len() {
+            let n = c.cuts[k % c.cuts.len()].max(1).min(body.len() - off);
+            k += 1;
+            nchunks += 1;
+            enc.extend(size_line(n, c.upper, 0, &c.ext));
+            enc.extend_from_slice(&body[off..off + n]);
+            enc.extend_from_slice(b"\r\n");
+            off += n;
+        }
+        enc.extend_from_slice(b"0\r\n\r\n");
+        let te = match c.header_case {
+            0 => "Transfer-Encoding: chunked",
+            1 => "transfer-encoding: chunked",
+            _ => "TRANSFER-ENCODING: chunked",
+        };
+        let mut resp = format!("HTTP/1.1 200 OK\r\nContent-Type: application/json\r\n{}\r\nConnection: close\r\n\r\n", te).into_bytes();
+        resp.extend_from_slice(&enc);
+
+        let listener = match std::net::TcpListener::bind("127.0.0.1:0") {
+            Ok(l) => l,
+            Err(e) => return Verdict::Discard(format!("bind: {}", e)),
+        };
+        let addr = listener.local_addr().unwrap();
+        let server = std::thread::spawn(move || {
+            if let Ok((mut s, _)) = listener.accept() {
+                let _ = s.set_read_timeout(Some(std::time::Duration::from_secs(10)));
+                // read the request head
+                let mut got = vec![];
+                let mut buf = [0u8; 1024];
+                while !got.windows(4).any(|w| w == b"\r\n\r\n") {
+                    match s.read(&mut buf) {
+                        Ok(0) | Err(_) => break,
+                        Ok(n) => got.extend_from_slice(&buf[..n]),
+                    }
+                }
+                let _ = s.write_all(&resp);
+                let _ = s.flush();
+            }
+        });
+        let src = GravitinoSource {
+            base_url: format!("http://{}", addr),
+            metalake: "m".into(),
+            catalog: "c".into(),
+            schema: "s".into(),
+        };
+        let got = std::panic::catch_unwind(|| src.list_filesets());
+        let _ = server.join();
+        let mut want = c.names.clone();
+        want.sort();
+        obs.nontrivial(nchunks >= 2);
+        if !c.ext.is_empty() {
+            obs.label("ext");
+        }
+        match got {
+            Err(_) => Verdict::Fail("list_filesets panicked".into()),
+            Ok(Ok(g)) if g == want => Verdict::Pass,
+            Ok(Ok(g)) => Verdict::Fail(format!("list_filesets = {:?}, the server sent {:?}", g, want)),
+            Ok(Err(e)) => {
+                let msg = format!("list_filesets failed on a valid chunked answer ({} chunks, ext {:?}): {}", nchunks, c.ext, e);
+                if !c.ext.is_empty() && e.to_string().contains("malformed chunked response") {
+                    obs.label("known:ext");
+                    Verdict::Known { id: KF_EXT.into(), msg }
+                } else {
+                    Verdict::Fail(msg)
+                }
+            }
+        }
+    }
+}
 
 pub fn property() -> Property {
-    Property { id: "C41", level: "exploration", assumptions: &[], checks: vec![] }
+    Property {
+        id: "C41",
+        level: "exploration",
+        assumptions: &[
+            "valid = RFC 7230 §4.1 chunked-body grammar (hex size, optional ;ext, CRLF, data, CRLF … last-chunk, trailers, CRLF)",
+            "malformed = no CRLF after a size, non-hex size, declared size larger than the bytes that follow, chunk data not followed by CRLF, no last-chunk; whitespace/'+' around a size, a missing final CRLF after the last-chunk, bytes after the end, and extension/trailer text outside the strict grammar are NOT judged (only 'does not panic')",
+            "the decoder receives the complete byte string read to EOF (Connection: close), as http_get does",
+        ],
+        checks: vec![Box::new(RoundTrip), Box::new(Malformed), Box::new(Arbitrary), Box::new(EndToEnd)],
+    }
 }
